@@ -1,5 +1,6 @@
 import MidoModel.Smf
 import MidoProofs.Lemmas.Vlq
+import MidoProofs.Lemmas.SmfRt
 /-!
   C07 — MIDI file save then load preserves every track.
 -/
@@ -136,5 +137,144 @@ theorem C07_written_type0 (cs : Charset) (f : MFile) (bs : List Nat) (h : writeF
 /-- the delta times written and read are variable-length quantities that read back exactly -/
 theorem C07_vlq (n : Nat) (rest : List Nat) : readVlq (encVlq n ++ rest) = .ok (n, rest) :=
   readVlq_encVlq n rest
+
+
+/-- **Storable file** (the property's precondition, as a predicate on the model's file value):
+    the charset is a single-byte one, every event is one the writer accepts (`StorableT`: checked
+    message, normal meta type or unknown meta with byte data, payload within the reader's
+    1 000 000-byte limit, natural-number delta), and every track chunk fits a 32-bit length. -/
+structure StorableFile (cs : Charset) (f : MFile) : Prop where
+  charset : cs ≠ .utf8
+  events : ∀ tr ∈ f.tracks, ∀ e ∈ tr, StorableT cs e
+  chunk : ∀ tr ∈ f.tracks, ∀ b, writeTrack cs tr = .ok b → b.length < 4294967296
+
+/-- **C07, save then load.**  Whenever `save` succeeds on a storable file, `load` of the written
+    bytes (clip off) succeeds and returns the same type, the same ticks_per_beat and, per track,
+    exactly the events of `fix_end_of_track(track)` — every message with its attributes and its
+    delta, every end_of_track before the last removed with its ticks carried to the next message,
+    and one end_of_track at the end.  All event kinds (channel, system common, sysex, known and
+    unknown meta), running status in the written bytes, any number of tracks and any length. -/
+theorem C07_roundtrip (cs : Charset) (f : MFile) (hs : StorableFile cs f) (bytes : List Nat)
+    (hw : writeFile cs f = .ok bytes) :
+    readFile cs false bytes = .ok ⟨f.type, f.tpb, f.tracks.map normTrack⟩ := by
+  unfold writeFile at hw
+  split at hw
+  · cases hw
+  · simp only [bind, Except.bind] at hw
+    cases ha : i16be f.type with
+    | error e => rw [ha] at hw; cases hw
+    | ok a =>
+      rw [ha] at hw; simp only at hw
+      cases hb : i16be (f.tracks.length : Int) with
+      | error e => rw [hb] at hw; cases hw
+      | ok b =>
+        rw [hb] at hw; simp only at hw
+        cases hc : i16be f.tpb with
+        | error e => rw [hc] at hw; cases hw
+        | ok c =>
+          rw [hc] at hw; simp only at hw
+          cases hbody : writeTracks cs f.tracks with
+          | error e => rw [hbody] at hw; cases hw
+          | ok body =>
+            rw [hbody] at hw; simp only [pure, Except.pure, Except.ok.injEq] at hw; subst hw
+            obtain ⟨a1, a2, rfl, hsa⟩ := s16_i16be _ _ ha
+            obtain ⟨b1, b2, rfl, hsb⟩ := s16_i16be _ _ hb
+            obtain ⟨c1, c2, rfl, hsc⟩ := s16_i16be _ _ hc
+            have hrt := readTracks_write cs hs.charset f.tracks body hs.events hs.chunk hbody
+            simp only [readFile, mthd, u32be, be32, cons_append, nil_append, length_cons, take, drop]
+            simp only [hsa, hsb, hsc, Int.toNat_natCast, hrt, bind, Except.bind, pure, Except.pure]
+            simp
+
+/-- the round trip as an identity on files already in the writer's normal form (one end_of_track,
+    at the end): loading what was saved gives the file back, event for event -/
+theorem C07_roundtrip_normal (cs : Charset) (f : MFile) (hs : StorableFile cs f) (bytes : List Nat)
+    (hw : writeFile cs f = .ok bytes)
+    (hn : ∀ tr ∈ f.tracks, fixEotEvents (.int 0) tr = .ok tr) :
+    (readFile cs false bytes).map LFile.toM = .ok f := by
+  rw [C07_roundtrip cs f hs bytes hw]
+  simp only [Except.map, LFile.toM]
+  have : (f.tracks.map normTrack).map (·.map LEvent.toT) = f.tracks := by
+    rw [map_map]
+    conv => rhs; rw [← map_id f.tracks]
+    apply map_congr_left
+    intro tr htr
+    simp only [Function.comp, normTrack, hn tr htr, map_map, id]
+    conv => rhs; rw [← map_id tr]
+    apply map_congr_left
+    intro e he
+    obtain ⟨_, n, hn'⟩ := hs.events tr htr e he
+    cases e with
+    | mk ev t => simp only at hn'; subst hn'; simp [Function.comp, TEvent.toL, LEvent.toT]
+  rw [this]
+
+
+/-- the file a load returns, as a file value again -/
+def MFile.norm (f : MFile) : MFile := ⟨f.type, f.tpb, f.tracks.map normT⟩
+
+/-- **Fixed point of the saved form.**  For a storable file, what `load(save(f))` returns is
+    storable again, saving it writes the very same bytes, and loading those gives the same file:
+    a second save/load round changes nothing. -/
+theorem C07_saved_fixed_point (cs : Charset) (f : MFile) (hs : StorableFile cs f) (bytes : List Nat)
+    (hw : writeFile cs f = .ok bytes) :
+    (readFile cs false bytes).map LFile.toM = .ok f.norm ∧ StorableFile cs f.norm ∧
+    writeFile cs f.norm = .ok bytes := by
+  have hwn : writeFile cs f.norm = .ok bytes := by
+    rw [← hw]
+    simp only [writeFile, MFile.norm, length_map, writeTracks_normT cs hs.charset f.tracks hs.events]
+  refine ⟨?_, ⟨hs.charset, ?_, ?_⟩, hwn⟩
+  · rw [C07_roundtrip cs f hs bytes hw]
+    simp [Except.map, LFile.toM, MFile.norm, normT]
+  · intro tr htr
+    simp only [MFile.norm, mem_map] at htr
+    obtain ⟨t, ht, rfl⟩ := htr
+    exact (writeTrack_normT cs hs.charset t (hs.events t ht)).2
+  · intro tr htr b hb
+    simp only [MFile.norm, mem_map] at htr
+    obtain ⟨t, ht, rfl⟩ := htr
+    rw [(writeTrack_normT cs hs.charset t (hs.events t ht)).1] at hb
+    exact hs.chunk t ht b hb
+
+/-- a concrete two-track file: channel messages sharing a status byte (running status), a sysex,
+    a known and an unknown meta message, an end_of_track in the middle with ticks to carry -/
+def sampleFile : MFile := ⟨1, 96, [
+  [⟨.metaEv ⟨.set_tempo, [.int 500000]⟩, .int 0⟩, ⟨.metaEv ⟨.end_of_track, []⟩, .int 7⟩,
+   ⟨.msg (.chan3 .note_on 0 60 64), .int 3⟩, ⟨.msg (.chan3 .note_on 0 62 0), .int 200⟩],
+  [⟨.msg (.sysex [1, 2, 3]), .int 0⟩, ⟨.unknownMeta 0x60 [9, 255], .int 5⟩,
+   ⟨.msg (.pitchwheel 1 (-8192)), .int 16384⟩]]⟩
+
+/-- the hypotheses of `C07_roundtrip` are met by `sampleFile`, the writer accepts it, the written
+    bytes use running status (the second note has no status byte), and the conclusion is what the
+    reader computes -/
+example : StorableFile .latin1 sampleFile ∧
+    writeFile .latin1 sampleFile = .ok
+      [77, 84, 104, 100, 0, 0, 0, 6, 0, 1, 0, 2, 0, 96,
+       77, 84, 114, 107, 0, 0, 0, 19, 0, 255, 81, 3, 7, 161, 32, 10, 144, 60, 64, 129, 72, 62, 0, 0, 255, 47, 0,
+       77, 84, 114, 107, 0, 0, 0, 23, 0, 240, 4, 1, 2, 3, 247, 5, 255, 96, 2, 9, 255, 129, 128, 0, 225, 0, 0, 0, 255, 47, 0] := by
+  have ht0 : writeTrack .latin1 (sampleFile.tracks[0]) = .ok
+      [77, 84, 114, 107, 0, 0, 0, 19, 0, 255, 81, 3, 7, 161, 32, 10, 144, 60, 64, 129, 72, 62, 0, 0, 255, 47, 0] := by
+    decide +kernel
+  have ht1 : writeTrack .latin1 (sampleFile.tracks[1]) = .ok
+      [77, 84, 114, 107, 0, 0, 0, 23, 0, 240, 4, 1, 2, 3, 247, 5, 255, 96, 2, 9, 255, 129, 128, 0, 225, 0, 0, 0, 255, 47, 0] := by
+    decide +kernel
+  refine ⟨⟨by decide, ?_, ?_⟩, by decide +kernel⟩
+  · intro tr htr e he
+    simp only [sampleFile, mem_cons, not_mem_nil, or_false] at htr
+    rcases htr with rfl | rfl <;> simp only [mem_cons, not_mem_nil, or_false] at he
+    · rcases he with rfl | rfl | rfl | rfl
+      · exact ⟨⟨by decide, by decide, by decide, by intro p hp; cases hp; decide⟩, 0, rfl⟩
+      · exact ⟨⟨by decide, by decide, by decide, by intro p hp; cases hp; decide⟩, 7, rfl⟩
+      · exact ⟨⟨by decide, by decide, by intro d hd; cases hd⟩, 3, rfl⟩
+      · exact ⟨⟨by decide, by decide, by intro d hd; cases hd⟩, 200, rfl⟩
+    · rcases he with rfl | rfl | rfl
+      · exact ⟨⟨by decide, by decide, by intro d hd; cases hd; decide⟩, 0, rfl⟩
+      · exact ⟨⟨by decide, by decide, by decide, by decide⟩, 5, rfl⟩
+      · exact ⟨⟨by decide, by decide, by intro d hd; cases hd⟩, 16384, rfl⟩
+  · intro tr htr b hb
+    simp only [sampleFile, mem_cons, not_mem_nil, or_false] at htr
+    rcases htr with rfl | rfl
+    · simp only [sampleFile, getElem_cons_zero] at ht0
+      rw [ht0] at hb; cases hb; decide
+    · simp only [sampleFile, getElem_cons_succ, getElem_cons_zero] at ht1
+      rw [ht1] at hb; cases hb; decide
 
 end Mido
